@@ -69,6 +69,10 @@ func lossyConversion(from, to types.Type) bool {
 func checkC19(r *core.Run, p *core.Program) {
 	r.Rule("C19.lossy-op", "in the numeric conversion functions (builder set*From* helpers and package conversions), every operation that can change the mathematical value of data derived from the input — a narrowing / sign-changing / float<->int conversion, reflect SetInt/SetUint/SetFloat into a possibly narrower kind, big.Int.Int64/Uint64, big.Float.Int64/Uint64/Float64/Int, a shift of the input — is guarded: dominated by a range or sign test on the source that leaves the function, or followed by a round-trip comparison of the stored/converted value with the original whose failing branch raises, or its accuracy result is compared with big.Exact, or its error result is checked.")
 	r.Rule("C19.sign", "in every OnNegativeInt implementation the magnitude parameter is only used in ways that carry the sign: negated, given to a Neg/negative-form writer or a negative type code, converted to the negative-magnitude key type, compared, or forwarded to another OnNegativeInt; it never reaches a positive/unsigned sink un-negated.")
+	r.Rule("C19.big-fits", "(*big.Int).Uint64() and (*big.Int).Int64() - which silently return the low 64 bits of anything - are only taken on paths whose conditions imply IsUint64() / IsInt64() of the same value (a bit-length test alone does not exclude negative values).")
+	checkC19BigFits(r, p)
+	r.Rule("C19.uint-to-int", "a uint64 parameter is converted to int64 only on paths whose conditions exclude magnitudes above 2^63 (decided by evaluating the comparisons and range predicates on the path for 2^63+1 and 2^64-1): a larger magnitude would wrap to a small or positive number.")
+	checkC19UintToInt(r, p)
 	r.NotDecide("that guard constants are numerically right on every platform (amd64 semantics of out-of-range float->int conversions are assumed); exactness of third-party conversions (compact-float, apd) beyond their error result")
 	r.Assume("third-party conversions (DFloat.Int/Uint/BigInt, apd.Decimal.Int64/Float64) return an error instead of a wrong value")
 	a := newAnalysis(p)
@@ -505,4 +509,171 @@ func isMetadataAccessor(info *types.Info, e ast.Expr) bool {
 		return true
 	}
 	return false
+}
+
+func checkC19BigFits(r *core.Run, p *core.Program) {
+	n := 0
+	for _, rel := range core.LibraryPackages {
+		if rel == "cte/parser" {
+			continue
+		}
+		pkg := p.Pkg(rel)
+		info := pkg.TypesInfo
+		a := newAnalysis(p)
+		for _, f := range funcsOf(pkg) {
+			inspectCalls(info, f.Decl.Body, func(call *ast.CallExpr, c *types.Func) {
+				if c == nil || (c.Name() != "Uint64" && c.Name() != "Int64") {
+					return
+				}
+				rt := recvType(c)
+				if rt == nil || !typeIs(rt, "math/big", "Int") {
+					return
+				}
+				sel, ok := call.Fun.(*ast.SelectorExpr)
+				if !ok {
+					return
+				}
+				n++
+				recv := exprStr(sel.X)
+				want := "Is" + c.Name()
+				isFit := func(e ast.Expr) bool {
+					cc, ok := stripParens(e).(*ast.CallExpr)
+					if !ok {
+						return false
+					}
+					cal := callee(info, cc)
+					s2, ok := cc.Fun.(*ast.SelectorExpr)
+					return ok && cal != nil && cal.Name() == want && exprStr(s2.X) == recv
+				}
+				conds, pols := pathConds(a, info, f, call)
+				r.Check("C19.big-fits", fmt.Sprintf("%s|%s.%s()", f.Name(), recv, c.Name()), call.Pos(), impliesAtomValue(info, f, conds, pols, isFit, true),
+					fmt.Sprintf("%s.%s() is taken on a path that does not require %s.%s(): a value outside the range (for Uint64: any negative value) is silently truncated to its low 64 bits", recv, c.Name(), recv, want))
+			})
+		}
+	}
+	r.Floor("C19.big-fits", "(*big.Int).Uint64/Int64 calls", n, 5)
+}
+
+func checkC19UintToInt(r *core.Run, p *core.Program) {
+	n := 0
+	for _, rel := range []string{"builder", "conversions", "cbe", "cte", "rules", "iterator"} {
+		pkg := p.Pkg(rel)
+		info := pkg.TypesInfo
+		a := newAnalysis(p)
+		for _, f := range funcsOf(pkg) {
+			sig := f.Obj.Type().(*types.Signature)
+			params := map[types.Object]bool{}
+			for i := 0; i < sig.Params().Len(); i++ {
+				if b, ok := sig.Params().At(i).Type().Underlying().(*types.Basic); ok && b.Kind() == types.Uint64 {
+					params[sig.Params().At(i)] = true
+				}
+			}
+			if len(params) == 0 {
+				continue
+			}
+			ast.Inspect(f.Decl.Body, func(nd ast.Node) bool {
+				call, ok := nd.(*ast.CallExpr)
+				if !ok || len(call.Args) != 1 {
+					return true
+				}
+				tv, ok := info.Types[call.Fun]
+				if !ok || !tv.IsType() {
+					return true
+				}
+				tb, ok := tv.Type.Underlying().(*types.Basic)
+				if !ok || (tb.Kind() != types.Int64 && tb.Kind() != types.Int) {
+					return true
+				}
+				po := objOf(info, call.Args[0])
+				if po == nil || !params[po] {
+					return true
+				}
+				n++
+				conds, pols := pathConds(a, info, f, call)
+				bad := ""
+				for _, v := range []uint64{1<<63 + 1, ^uint64(0)} {
+					if uintPathFeasible(p, info, conds, pols, po, v) {
+						bad = fmt.Sprintf("%d", v)
+					}
+				}
+				r.Check("C19.uint-to-int", fmt.Sprintf("%s|%s", f.Name(), exprStr(call)), call.Pos(), bad == "",
+					"`"+exprStr(call)+"` can be reached with "+po.Name()+" = "+bad+": the conversion wraps, so the magnitude and the sign of the number are lost")
+				return true
+			})
+		}
+	}
+	r.Floor("C19.uint-to-int", "int64 conversions of uint64 parameters", n, 3)
+}
+
+// uintPathFeasible: can all path conditions have their required polarity when the parameter has value v? Comparisons
+// of the parameter with constants and calls of one-line range predicates (value <= C) are evaluated; anything else
+// is unknown and does not exclude the path.
+func uintPathFeasible(p *core.Program, info *types.Info, conds []ast.Expr, pols []bool, param types.Object, v uint64) bool {
+	var eval func(e ast.Expr) (val, known bool)
+	eval = func(e ast.Expr) (bool, bool) {
+		e = stripParens(e)
+		switch x := e.(type) {
+		case *ast.UnaryExpr:
+			if x.Op == token.NOT {
+				b, k := eval(x.X)
+				return !b, k
+			}
+		case *ast.CallExpr:
+			if len(x.Args) == 1 && objOf(info, stripConv(info, x.Args[0])) == param {
+				if c := callee(info, x); c != nil && core.InModule(c) {
+					if pk := p.PkgOf(c); pk != nil {
+						if bound, ok := predicateBound(p, pk.TypesInfo, c); ok {
+							return v <= bound, true
+						}
+					}
+				}
+			}
+		case *ast.BinaryExpr:
+			switch x.Op {
+			case token.LAND:
+				a, ka := eval(x.X)
+				b, kb := eval(x.Y)
+				if (ka && !a) || (kb && !b) {
+					return false, true
+				}
+				return a && b, ka && kb
+			case token.LOR:
+				a, ka := eval(x.X)
+				b, kb := eval(x.Y)
+				if (ka && a) || (kb && b) {
+					return true, true
+				}
+				return a || b, ka && kb
+			case token.EQL, token.NEQ, token.LSS, token.LEQ, token.GTR, token.GEQ:
+				var cv constant.Value
+				op := x.Op
+				if objOf(info, stripConv(info, x.X)) == param {
+					cv = constVal(info, x.Y)
+				} else if objOf(info, stripConv(info, x.Y)) == param {
+					cv = constVal(info, x.X)
+					switch op {
+					case token.LSS:
+						op = token.GTR
+					case token.GTR:
+						op = token.LSS
+					case token.LEQ:
+						op = token.GEQ
+					case token.GEQ:
+						op = token.LEQ
+					}
+				}
+				if cv != nil && (cv.Kind() == constant.Int || cv.Kind() == constant.Float) {
+					return constant.Compare(constant.MakeUint64(v), op, constant.ToInt(cv)), true
+				}
+			}
+		}
+		return false, false
+	}
+	for i, c := range conds {
+		b, known := eval(c)
+		if known && b != pols[i] {
+			return false
+		}
+	}
+	return true
 }
